@@ -91,6 +91,7 @@ type Stream struct {
 	// Read data above the sinceTs. All keys with version =< sinceTs will be ignored.
 	SinceTs      uint64
 	readTs       uint64
+	snapshot     *Txn // Non-managed mode: the transaction whose read timestamp all producers share.
 	db           *DB
 	rangeCh      chan keyRange
 	kvChan       chan *z.Buffer
@@ -178,6 +179,13 @@ func (st *Stream) produceKVs(ctx context.Context, threadId int) error {
 	var txn *Txn
 	if st.readTs > 0 {
 		txn = st.db.NewTransactionAt(st.readTs, false)
+	} else if st.snapshot != nil {
+		// Read at the timestamp of the snapshot transaction opened by Orchestrate, so that all
+		// producers see the same snapshot even if transactions commit while the stream runs. The
+		// snapshot transaction holds the read watermark; this one must not release it again.
+		txn = st.db.newTransaction(false, true)
+		txn.readTs = st.snapshot.readTs
+		txn.doneRead = true
 	} else {
 		txn = st.db.NewTransaction(false)
 	}
@@ -427,6 +435,17 @@ func (st *Stream) Orchestrate(ctx context.Context) error {
 
 	if st.KeyToList == nil {
 		st.KeyToList = st.ToList
+	}
+
+	if st.readTs == 0 && !st.db.opt.managedTxns {
+		// Each producer goroutine used to open its own transaction, so a transaction committing
+		// while the stream was starting could be visible to one producer and not to another.
+		// Open one snapshot here and let every producer read at its timestamp.
+		st.snapshot = st.db.NewTransaction(false)
+		defer func() {
+			st.snapshot.Discard()
+			st.snapshot = nil
+		}()
 	}
 
 	// Picks up ranges from Badger, and sends them to rangeCh.
